@@ -115,6 +115,9 @@ type Case struct {
 	Neutral [][3]int `json:"neutral,omitempty"`
 	// Trap: (A, B) of the removal-trap feature — on the first vehicle the route A, B ends in time, the route A alone does not
 	Trap []int `json:"trap,omitempty"`
+	// Loose: groups of stops whose plan units form a plan-all unit that does NOT require one vehicle
+	// (NewPlanAllPlanUnits(false, …): public model API, no JSON equivalent); added to the model after the factory built it
+	Loose [][]int `json:"loose,omitempty"`
 }
 
 type CSolve struct {
@@ -141,6 +144,8 @@ type Profile struct {
 	ForcePrec                                                                       bool // precedence units always on
 	StatedTwice                                                                     bool // some precedence relations are stated from both sides
 	ForceMix                                                                        bool // mixing items on most stops, units of three stops with items
+	GroupTrap                                                                       bool // a stop group whose members can only be removed in reverse order
+	Loose                                                                           bool // plan-all units over several vehicles (API only)
 	Trap                                                                            bool // removal trap (see Case.Trap)
 	ForceWindows                                                                    bool // windows, wait limits and a non-metric matrix always on
 	ForceUnordered                                                                  bool // at least one multi-stop unit with several allowed orders
@@ -149,7 +154,7 @@ type Profile struct {
 func fullProfile(maxStops, maxVeh int) Profile {
 	return Profile{MaxStops: maxStops, MaxVehicles: maxVeh, Capacity: true, Windows: true, Precedence: true,
 		Groups: true, Alternates: true, Initial: true, TD: true, DurGroups: true, Mult: true, Attrs: true,
-		Mix: true, Limits: true, Waits: true, Targets: true, MinStops: true, Disable: true, NonMetric: true, StatedTwice: true}
+		Mix: true, Limits: true, Waits: true, Targets: true, MinStops: true, Disable: true, NonMetric: true, StatedTwice: true, Loose: true}
 }
 
 func ip(i int) *int       { return &i }
@@ -617,6 +622,11 @@ func genCase(rng *rand.Rand, p Profile) *Case {
 							if len(c.Stops[pr.To].Windows) > 0 && rng.Intn(2) == 0 {
 								w := 60 * rng.Intn(3)
 								c.Stops[pr.To].MaxWait = &w
+								if rng.Intn(2) == 0 {
+									// … and open late: wherever they are placed early in the day they wait too long
+									t := baseTime + int64(150+rng.Intn(60))*60
+									c.Stops[pr.To].Windows = [][2]int64{{t, t + 7200}}
+								}
 							}
 						}
 						c.feature("neutral-detour-first-stop-of-unit")
@@ -728,6 +738,31 @@ func genCase(rng *rand.Rand, p Profile) *Case {
 			}
 			used++
 		}
+		// a whole stop group as initial stops of one vehicle, its member units one after the other, each member fixed or
+		// not on its own (the repair of an infeasible initial route must treat the group as one unit)
+		if len(c.Groups) > 0 && rng.Intn(2) == 0 {
+			g := c.Groups[rng.Intn(len(c.Groups))]
+			in := map[int]bool{}
+			for _, s := range g {
+				in[s] = true
+			}
+			v := rng.Intn(nv)
+			anyFixed := false
+			for _, u := range units {
+				if len(u) == 0 || !in[u[0]] {
+					continue
+				}
+				fixed := rng.Intn(2) == 0
+				anyFixed = anyFixed || fixed
+				for _, s := range c.topo(u) {
+					c.Vehicles[v].Initial = append(c.Vehicles[v].Initial, CInitial{Stop: s, Fixed: fixed})
+				}
+			}
+			c.feature("initial-group")
+			if anyFixed {
+				c.feature("fixed")
+			}
+		}
 	}
 	// options
 	c.Opt.Factors = map[string]int{"vehicles_duration": 1, "unplanned_penalty": 1, "vehicle_activation_penalty": 1,
@@ -747,6 +782,79 @@ func genCase(rng *rand.Rand, p Profile) *Case {
 			"maximum_wait_stop", "maximum_wait_vehicle", "vehicle_end_time", "start_time_windows"}
 		c.Opt.Disable = []string{all[rng.Intn(len(all))]}
 		c.feature("disable:" + c.Opt.Disable[0])
+	}
+	// loose groups: two or three whole plan units that must be planned together but not on one vehicle
+	if p.Loose && rng.Intn(3) == 0 && len(c.Alts) == 0 {
+		initial := map[int]bool{}
+		for _, ve := range c.Vehicles {
+			for _, in := range ve.Initial {
+				initial[in.Stop] = true
+			}
+		}
+		var free [][]int
+		for _, u := range c.unitsOfStops() {
+			ok := !c.inGroup(u)
+			for _, st := range u {
+				if initial[st] {
+					ok = false // a group is planned as a whole or not at all: no member may come as an initial stop
+				}
+			}
+			if ok {
+				free = append(free, u)
+			}
+		}
+		if len(free) >= 2 {
+			rng.Shuffle(len(free), func(i, j int) { free[i], free[j] = free[j], free[i] })
+			k := 2 + rng.Intn(2)
+			if k > len(free) {
+				k = len(free)
+			}
+			var g []int
+			for _, u := range free[:k] {
+				g = append(g, u...)
+			}
+			c.Loose = append(c.Loose, g)
+			c.feature("loose-group")
+		}
+	}
+	// group trap: a stop group of three plain stops a (+q), b (-x), c (-(q-x)) on a resource of capacity q: b and c can
+	// only be on a vehicle behind a, so the members can be planned in one order and removed only in the reverse one —
+	// the rollback of a group move that fails at its last member must undo the earlier members last-in-first-out
+	if p.GroupTrap && n >= 3 {
+		var plain []int
+		for i := range c.Stops {
+			if len(c.Stops[i].Precedes) == 0 && !isSuccessor(c, i) && !c.inGroup([]int{i}) && c.Stops[i].Mix == nil {
+				plain = append(plain, i)
+			}
+		}
+		if len(plain) >= 3 {
+			rng.Shuffle(len(plain), func(i, j int) { plain[i], plain[j] = plain[j], plain[i] })
+			a, b, d := plain[0], plain[1], plain[2]
+			q := 2 + rng.Intn(8)
+			x := 1 + rng.Intn(q-1)
+			for _, i := range []int{a, b, d} {
+				if c.Stops[i].Qty == nil {
+					c.Stops[i].Qty = map[string]int{}
+				}
+				c.Stops[i].Windows, c.Stops[i].MaxWait, c.Stops[i].Attrs = nil, nil, nil
+			}
+			c.Stops[a].Qty["trap"] = -q
+			c.Stops[b].Qty["trap"] = x
+			c.Stops[d].Qty["trap"] = q - x
+			for v := range c.Vehicles {
+				if c.Vehicles[v].Cap == nil {
+					c.Vehicles[v].Cap = map[string]int{}
+				}
+				c.Vehicles[v].Cap["trap"] = q
+				if c.Vehicles[v].StartLevel != nil {
+					delete(c.Vehicles[v].StartLevel, "trap")
+				}
+			}
+			c.Groups = append(c.Groups, []int{a, b, d})
+			c.feature("group-trap")
+			c.feature("stop_groups")
+			c.feature("capacity")
+		}
 	}
 	// distance-matrix entries of absent start / end locations are zero: unlike the duration matrix (TemporalValues
 	// skips legs from / to an invalid location) the code READS them (measureByIndexExpression), so what a valid input
@@ -831,7 +939,7 @@ func (c *Case) unitsOfStops() [][]int {
 }
 
 func (c *Case) inGroup(unit []int) bool {
-	for _, g := range c.Groups {
+	for _, g := range append(append([][]int{}, c.Groups...), c.Loose...) {
 		for _, s := range g {
 			for _, u := range unit {
 				if s == u {
